@@ -122,8 +122,16 @@ pub fn rendition(rng: &mut Rng) -> Vec<u32> {
             1 => v.push(40 + rng.below(8) as u32),
             2 => v.push(*rng.pick(&[1u32, 3, 4, 5, 7, 9])),
             3 => v.push(90 + rng.below(8) as u32),
-            4 => v.extend([38, 5, rng.below(256) as u32]),
-            5 => v.extend([48, 2, rng.below(256) as u32, rng.below(256) as u32, rng.below(256) as u32]),
+            4 => {
+                let n = if rng.below(5) == 0 { *rng.pick(&[0u32, 15, 16, 231, 232, 255, 256, 257, 9999]) } else { rng.below(256) as u32 };
+                v.extend([38, 5, n])
+            }
+            5 => {
+                // colour components, boundary-biased (255 / 256 / 257 are where range checks sit)
+                let mut comp = |rng: &mut Rng| if rng.below(6) == 0 { *rng.pick(&[0u32, 255, 256, 257, 9999]) } else { rng.below(256) as u32 };
+                let (r, g, b) = (comp(rng), comp(rng), comp(rng));
+                v.extend([if rng.bool() { 48 } else { 38 }, 2, r, g, b])
+            }
             6 => v.push(100 + rng.below(8) as u32),
             _ => v.push(*rng.pick(&[22u32, 23, 24, 25, 27, 29, 39, 49])),
         }
